@@ -504,9 +504,9 @@ def run(ctx):
             for lo in range(0, sp.total, PER_FILE):
                 add(kind="small", space=sp.name, lo=lo, hi=min(sp.total, lo + PER_FILE))
     scale = float(opts.get("scale", "1"))
-    fam = {"core": ctx.pick(28, 1250), "lit": ctx.pick(10, 350), "rest": ctx.pick(7, 250), "dense": ctx.pick(4, 100),
+    fam = {"core": ctx.pick(26, 1150), "lit": ctx.pick(9, 330), "rest": ctx.pick(6, 230), "dense": ctx.pick(4, 100), "named": ctx.pick(4, 140),
            "restm": ctx.pick(6, 40), "restt": ctx.pick(4, 30)}
-    exec_files = {"core": ctx.pick(7, 110), "lit": ctx.pick(3, 40), "rest": ctx.pick(2, 25), "dense": ctx.pick(3, 30),
+    exec_files = {"core": ctx.pick(6, 100), "lit": ctx.pick(3, 40), "rest": ctx.pick(2, 25), "dense": ctx.pick(3, 30), "named": ctx.pick(2, 15),
                   "restm": ctx.pick(1, 4), "restt": ctx.pick(1, 4)}
     exec_per_file = ctx.pick(20, 24)
     only = opts.get("family")
